@@ -597,5 +597,4 @@ theorem emit_sound (tbl : CodeTable) {s : St} {a : Nat} (hw : WF s a)
     simp only [Pil.denote, designOf, Pil.Spec.baseSeqs, List.filter_map, Function.comp_def, pilObj, List.filter_append,
       fB1, fS1, fB2, fS2, List.append_nil, List.map_map, List.map_append, nucsOfBases_filter_tb, pilStrand, pilStruct,
       optOfDec, List.map_nil, Design.mk.injEq, and_true, true_and]
-    trivial
 end Pepper.Comp
